@@ -222,12 +222,21 @@ AddrParts(t) ==
 
 DenoteAddr(t) == LET p == AddrParts(t) IN IF p.ia = Undef \/ p.host = Undef THEN Undef ELSE p.ia \o p.host
 
-\* "[" addr "]:" port
+\* "[" addr "]:" port ; the brackets may be omitted when addr contains no ':' (the text is then still
+\* unambiguous -- this is what net.SplitHostPort accepts; the weaker reading of the documented format)
+RECURSIVE LastIndexFrom(_, _, _)
+LastIndexFrom(t, c, i) == IF i = 0 THEN 0 ELSE IF t[i] = c THEN i ELSE LastIndexFrom(t, c, i - 1)
+NoPort == [shape |-> FALSE, port |-> -1, inner |-> <<>>]
 PortParts(t) ==
-    LET j == FirstAt(t, <<93>>) IN
-    IF Len(t) < 4 \/ t[1] # 91 \/ j = 0 \/ j + 1 > Len(t) THEN [shape |-> FALSE, port |-> -1, inner |-> <<>>]
-    ELSE IF t[j + 1] # 58 \/ Contains(SubSeq(t, 2, j - 1), 91) THEN [shape |-> FALSE, port |-> -1, inner |-> <<>>]
-    ELSE [shape |-> TRUE, port |-> DenoteDec16(Drop(t, j + 1)), inner |-> SubSeq(t, 2, j - 1)]
+    IF Len(t) > 0 /\ t[1] = 91
+      THEN LET j == FirstAt(t, <<93>>) IN
+           IF Len(t) < 4 \/ j = 0 \/ j + 1 > Len(t) THEN NoPort
+           ELSE IF t[j + 1] # 58 \/ Contains(SubSeq(t, 2, j - 1), 91) THEN NoPort
+           ELSE [shape |-> TRUE, port |-> DenoteDec16(Drop(t, j + 1)), inner |-> SubSeq(t, 2, j - 1)]
+    ELSE LET j == LastIndexFrom(t, 58, Len(t))
+             h == SubSeq(t, 1, j - 1) IN
+         IF j = 0 \/ Contains(h, 58) \/ Contains(h, 91) \/ Contains(h, 93) THEN NoPort
+         ELSE [shape |-> TRUE, port |-> DenoteDec16(Drop(t, j)), inner |-> h]
 
 DenoteAddrPort(t) ==
     LET p == PortParts(t)
